@@ -30,6 +30,12 @@ def main():
         schema.str.len(50, ...), schema.str.len(0, 3), schema.list(schema.int).len(40, ...), schema.list(schema.int),
         schema.str.alphabet("xy").len(45, ...), schema.str.alphabet("xy"), schema.int.min(2 ** 70), schema.int,
         schema.float.min(1e30), schema.float, schema.str.contains("q" * 40), schema.str.contains("q"),
+        # alphabets with repeated letters, mixed case, non-ASCII (anything de-duplicated or re-ordered through a set shows up
+        # across interpreters with different hash seeds)
+        schema.str.alphabet("aabc").len(8), schema.str.alphabet("0123456789abcdefABCDEFabcdef").len(24),
+        schema.str.alphabet("zyxzyx").contains("zz").len(6, 9), schema.str.alphabet("éèêé☃").len(5), schema.str.alphabet("ba"),
+        schema.list(schema.str.alphabet("1223334444")).len(3), schema.dict({"k": schema.str.alphabet("mississippi").len(4)}),
+        schema.bytes, schema.list([schema.int, schema.str.alphabet("aab"), ...]),
     ]
     if not with_neg:
         schemas = else_directed[:3] + schemas[: n // 2] + else_directed[3:] + schemas[n // 2:]
